@@ -3,7 +3,8 @@
 property already modified (so that the new changes use other mechanisms). Reveals nothing about /verif's checks."""
 import glob, json, re, subprocess, sys
 pid = sys.argv[1]
-wt = f'/tmp/seed2-{pid}'
+import os
+wt = f'/tmp/seed{os.environ.get("WAVE", "2")}-{pid}'
 base = subprocess.run(['/verif/tools/seed_prompt.py', pid], capture_output=True, text=True).stdout.replace(f'/tmp/seed-{pid}', wt)
 locs = []
 for p in sorted(glob.glob(f'/verif/seeded/{pid}-*/patch.diff')):
@@ -15,6 +16,6 @@ for p in sorted(glob.glob(f'/verif/seeded/{pid}-*/patch.diff')):
         if m and cur:
             locs.append(f'{cur}: {m.group(1).strip()[:80]}')
 locs = sorted(set(locs))
-extra = ("\n\nIMPORTANT — earlier rounds already produced changes at these locations; your two changes must be in OTHER functions "
+extra = ("\n\nPrefer changes whose breakage needs a multi-step sequence, a fault/kill at a particular point, or two cooperating sites that each look fine alone.\n\nIMPORTANT — earlier rounds already produced changes at these locations; your two changes must be in OTHER functions "
          "and break the property through DIFFERENT mechanisms (different part of the statement where possible):\n" + '\n'.join(' * ' + l for l in locs) + '\n')
 print(base.replace('Environment facts:', extra + '\nEnvironment facts:', 1))
